@@ -299,7 +299,8 @@ struct Layout {          // decoded from the tape
   int style = 0;         // 0: libogg-like defaults (fill pages to ~4k), 1: one packet per page, 2: random, 3: tiny segments/page, 4: max fill
   uint32_t seed = 0;     // Bulk seed for style 2 decisions
   int hdr_split = 0;     // 0: comment+setup share pages as they fall; 1: each header packet flushed to its own page(s)
-  static Layout gen(Tape &t) { Layout l; l.style = t.weighted({4, 2, 4, 1, 1}); l.seed = t.raw(); l.hdr_split = t.below(2); return l; }
+  // style 5 (tape generation 4): the pages are cut by libogg itself (ogg_stream_packetin / flush / pageout, the calls of encoder_example.c)
+  static Layout gen(Tape &t) { Layout l; l.style = g_tape_gen >= 4 ? t.weighted({4, 2, 4, 1, 1, 3}) : t.weighted({4, 2, 4, 1, 1}); l.seed = t.raw(); l.hdr_split = t.below(2); return l; }
   std::string desc() const { return sfmt("layout{style=%d seed=%u hs=%d}", style, seed, hdr_split); }
 };
 
@@ -318,9 +319,40 @@ static inline void emit_page(std::vector<uint8_t> &out, int flags, int64_t gp, i
   ogg_page_checksum_set(&og);
 }
 
+// The same job done by libogg (second pager, so that the harness pager is not a single point of trust): header packets flushed as
+// encoder_example.c does, audio pages as ogg_stream_pageout cuts them (or flushed at tape-chosen packets).  The page table is rebuilt
+// from the lacing values of the pages libogg returned.
+static inline void page_stream_libogg(const LStream &s, const Layout &lay, std::vector<uint8_t> &out, std::vector<PageInfo> &pages, int link,
+                                      bool set_eos) {
+  ogg_stream_state os; ogg_stream_init(&os, s.serial);
+  Bulk b(lay.seed | 1); int flush_pct = (lay.seed & 3) == 0 ? 0 : (lay.seed & 3) == 1 ? 5 : (lay.seed & 3) == 2 ? 30 : 100;
+  size_t np = 3 + s.audio.size(); int pkts_started = 0, pkts_done = 0;
+  auto take = [&](ogg_page &og) {
+    PageInfo pi; pi.offset = (int64_t)out.size(); pi.serial = s.serial; pi.granulepos = ogg_page_granulepos(&og); pi.link = link;
+    pi.flags = (ogg_page_continued(&og) ? 1 : 0) | (ogg_page_bos(&og) ? 2 : 0) | (ogg_page_eos(&og) ? 4 : 0);
+    int nseg = og.header[26]; bool cont = ogg_page_continued(&og);
+    pi.first_pkt = nseg ? (cont ? pkts_started - 1 : pkts_started) : -1;
+    bool in_pkt = cont;
+    for (int i = 0; i < nseg; i++) { if (!in_pkt) { pkts_started++; in_pkt = true; } if (og.header[27 + i] < 255) { pkts_done++; pi.last_completed_pkt = pkts_done - 1; in_pkt = false; } }
+    out.insert(out.end(), og.header, og.header + og.header_len); out.insert(out.end(), og.body, og.body + og.body_len);
+    pi.len = (int)(out.size() - pi.offset); pages.push_back(pi);
+  };
+  for (size_t i = 0; i < np; i++) {
+    const Pkt &p = i < 3 ? s.hdr[i] : s.audio[i - 3];
+    ogg_packet op; p.to_ogg(op); op.b_o_s = i == 0; op.e_o_s = (i + 1 == np && set_eos) ? 1 : 0; op.packetno = (ogg_int64_t)i;
+    ogg_stream_packetin(&os, &op);
+    ogg_page og;
+    bool force = i == 0 || i == 2 || (lay.hdr_split && i == 1) || (s.gp_offset && i == 4) || i + 1 == np || (i > 2 && (int)b.below(100) < flush_pct);
+    if (force) while (ogg_stream_flush(&os, &og)) take(og);
+    else while (ogg_stream_pageout(&os, &og)) take(og);
+  }
+  ogg_stream_clear(&os);
+}
+
 // Append the pages of one logical stream to `out`.
 static inline void page_stream(const LStream &s, const Layout &lay, std::vector<uint8_t> &out, std::vector<PageInfo> &pages, int link,
                                bool set_eos = true) {
+  if (lay.style == 5) { page_stream_libogg(s, lay, out, pages, link, set_eos); return; }
   struct Seg { uint8_t len; int pkt; bool last; };
   std::vector<const Pkt *> pk; for (int i = 0; i < 3; i++) pk.push_back(&s.hdr[i]); for (auto &a : s.audio) pk.push_back(&a);
   Bulk b(lay.seed | 1);
